@@ -288,7 +288,7 @@ class Built:
     pass
 
 
-def build(desc, x64=False, flip_per_obs=None, initial=None):
+def build(desc, x64=False, flip_per_obs=None, initial=None, mistakes=None):
     """Build the liesel model.  flip_per_obs: set of names whose per_obs is flipped.
     initial: dict name -> value (original scale) to start from."""
     import jax.numpy as jnp
@@ -356,9 +356,25 @@ def build(desc, x64=False, flip_per_obs=None, initial=None):
             d.per_obs = it["per_obs"] != (it["name"] in flip)
             objs[it["name"]] = d
             gb.add(d)
+    # user mistakes before the build: assignments liesel rejects (a node can belong to one variable only) must
+    # leave the variables as they were
+    n_rej = 0
+    for tgt_name, src_name, what in (mistakes or []):
+        tgt, src = objs[tgt_name], objs[src_name]
+        own_d, own_v = tgt.dist_node, tgt.value_node
+        try:
+            if what == "dist":
+                tgt.dist_node = src.dist_node
+            else:
+                tgt.value_node = src.value_node
+        except RuntimeError:
+            n_rej += 1
+        if tgt.dist_node is not own_d or tgt.value_node is not own_v:
+            raise AssertionError(f"rejected {what}-node assignment changed {tgt_name}")
     for o in objs.values():
         gb.add(o)
     b = Built()
+    b.n_rejected = n_rej
     b.user_nodes = {}
     if desc["user"].get("log_lik") == "array":
         # a per-observation (array-valued) user log-likelihood: must be forwarded unchanged, not reduced
